@@ -146,7 +146,13 @@ func c13F32(rng *rand.Rand) uint32 {
 	return rng.Uint32()
 }
 
+// far-apart operands: MinInt64, MinInt64+1, -1, 0, 1, MaxInt64 (= 2^63-1), 2^63, MaxUint64
+var c13Boundary = []uint64{0x8000000000000000, 0x8000000000000001, 0xffffffffffffffff, 0, 1, 0x7fffffffffffffff, 10, 0xfffffffffffffff6}
+
 func c13IntPattern(rng *rand.Rand, k int) uint64 {
+	if k == 8 && rng.Intn(3) == 0 {
+		return c13Boundary[rng.Intn(len(c13Boundary))]
+	}
 	switch rng.Intn(5) {
 	case 0:
 		return uint64(rng.Intn(4))
@@ -233,6 +239,10 @@ func c13Leaf(rng *rand.Rand) []byte {
 	case 28:
 		n := []int{0, 8, 12, 2}[rng.Intn(4)]
 		return append(append(append([]byte{0xc9}, c13be(4, uint64(n))...), byte(rng.Intn(256))), c13Bytes(rng, n)...)
+	case 29, 30: // 64-bit integers from the boundary table
+		return append([]byte{[]byte{0xd3, 0xcf}[rng.Intn(2)]}, c13be(8, c13Boundary[rng.Intn(len(c13Boundary))])...)
+	case 31: // narrow typed numbers (INC must keep them narrow)
+		return [][]byte{{0xd0, 0xcc}, {0xcc, 0xfe}, {0xd1, 0x7f, 0xff}, {0xcd, 0xff, 0xff}, {0xca, 0x3f, 0x80, 0, 0}, {0xd2, 0x80, 0, 0, 0}}[rng.Intn(6)]
 	}
 	return []byte{byte(rng.Intn(128))}
 }
@@ -609,6 +619,40 @@ func c13Op(rng *rand.Rand, addrs []c13Addr) string {
 	return kind + ":" + hex.EncodeToString([]byte(path)) + ":" + hex.EncodeToString(val)
 }
 
+// c13Twice: two ops on the same numeric leaf — SET then INC, or INC then INC — so that the
+// second op works on a leaf the first one already replaced (narrow types must stay narrow).
+func c13Twice(rng *rand.Rand, addrs []c13Addr) (string, bool) {
+	var nums []c13Addr
+	for _, a := range addrs {
+		if a.node.kind == 0 && c13ClassOf(a.node.raw[0]) != 0 {
+			nums = append(nums, a)
+		}
+	}
+	if len(nums) == 0 {
+		return "", false
+	}
+	a := nums[rng.Intn(len(nums))]
+	ph := hex.EncodeToString([]byte(a.path))
+	cl := c13ClassOf(a.node.raw[0])
+	var first string
+	if rng.Intn(2) == 0 {
+		// SET a narrow typed number of some class, then INC in that class
+		cl = 1 + rng.Intn(3)
+		var v []byte
+		for {
+			v = c13Numeric(rng, cl)
+			if len(v) > 1 && len(v) < 9 {
+				break
+			}
+		}
+		first = "set:" + ph + ":" + hex.EncodeToString(v)
+	} else {
+		first = "inc:" + ph + ":" + hex.EncodeToString(c13Numeric(rng, cl))
+	}
+	second := "inc:" + ph + ":" + hex.EncodeToString(c13Numeric(rng, cl))
+	return " " + first + " " + second, true
+}
+
 var c13CondOps = []string{"eq", "ne", "gt", "ge", "lt", "le", "ex", "nex"}
 
 func c13Cond(rng *rand.Rand, addrs []c13Addr) string {
@@ -639,6 +683,13 @@ func c13Cond(rng *rand.Rand, addrs []c13Addr) string {
 		// float field: NaN threshold (float64 or float32, quiet or signalling)
 		thr = [][]byte{{0xcb, 0x7f, 0xf8, 0, 0, 0, 0, 0, 0}, {0xca, 0x7f, 0xc0, 0, 0}, {0xcb, 0xff, 0xf0, 0, 0, 0, 0, 0, 1},
 			{0xca, 0x7f, 0x80, 0, 1}}[rng.Intn(4)]
+	case node != nil && node.kind == 0 && (c13ClassOf(node.raw[0]) == 1 || c13ClassOf(node.raw[0]) == 2) && rng.Intn(10) < 3:
+		// integer field: a 64-bit threshold from the boundary table (operands up to 2^64 apart)
+		code := byte(0xd3)
+		if c13ClassOf(node.raw[0]) == 2 {
+			code = 0xcf
+		}
+		thr = append([]byte{code}, c13be(8, c13Boundary[rng.Intn(len(c13Boundary))])...)
 	case node != nil && node.kind == 0 && rng.Intn(10) < 3:
 		thr = node.raw
 	case node != nil && node.kind == 0 && c13ClassOf(node.raw[0]) != 0 && rng.Intn(10) < 7:
@@ -685,6 +736,13 @@ func c13Gen(rng *rand.Rand, tier string, w *bufio.Writer) {
 		"ap 81a178ccff - inc:78:cc01",                                          // uint8 wraps
 		"ap 81a166ca7f7fffff - inc:66:ca7f7fffff",                              // float32 overflow → +Inf
 		"ap 81a166cb7ff0000000000000 - inc:66:cbfff0000000000000",              // Inf + -Inf
+		"ap 81a178d3800000000000000001 gt:78:d3000000000000000a set:7a:01",     // MinInt64+1 > 10 ? no
+		"ap 81a178d3800000000000000001 lt:78:d3000000000000000a set:7a:01",     // MinInt64+1 < 10 ? yes
+		"ap 81a178cf8000000000000000 gt:78:cf0000000000000001 set:7a:01",       // 2^63 > 1 (uint64) ? yes
+		"ap 81a178cfffffffffffffffff le:78:05 set:7a:01",                       // MaxUint64 <= 5 ? no
+		"ap 81a17801 - set:78:d0cc inc:78:d001",                                // SET int8 then INC: stays int8
+		"ap 81a178ca3f800000 - inc:78:ca3f800000 inc:78:cb3ff0000000000000",    // float32 INC twice: stays float32
+		"ap 81a178ccfe - inc:78:01 inc:78:01",                                  // uint8 wraps twice, stays uint8
 		"ap 81a17493010203 - rmat:745b2d315d:",                                 // t[-1]
 		"ap 81a17493010203 - rmat:745b2d345d:",                                 // t[-4] out of range
 		"ap 81a17493010203 - pre:745b5d:09 app:745b5d:0a rmval:74:02",          //
@@ -761,6 +819,10 @@ func c13Gen(rng *rand.Rand, tier string, w *bufio.Writer) {
 		for i := 0; i < lines; i++ {
 			nops := []int{0, 1, 1, 1, 1, 2, 2, 3, 4}[rng.Intn(9)]
 			var sb strings.Builder
+			if tw, ok := c13Twice(rng, addrs); ok && rng.Intn(8) == 0 {
+				sb.WriteString(tw)
+				nops = rng.Intn(2)
+			}
 			for j := 0; j < nops; j++ {
 				sb.WriteString(" " + c13Op(rng, addrs))
 			}
